@@ -88,6 +88,68 @@ CIF_ITEMS = ["group_PDB", "id", "type_symbol", "label_atom_id", "label_alt_id", 
              "auth_asym_id", "auth_atom_id", "pdbx_PDB_model_num"]
 
 
+PDB_VARIANTS = ("short-lines", "no-element-columns", "crlf", "extra-records")
+CIF_VARIANTS = ("columns-reversed", "all-quoted", "extra-items", "tabs-and-comments")
+
+
+def pdb_variant(text, kind):
+    """The same atoms in another legal presentation of the PDB text (what real files look like): trailing blanks stripped, lines ending after the
+    B-factor, CRLF line ends, other record types in between."""
+    lines = text.split("\n")
+    if kind == "short-lines":
+        return "\n".join(ln.rstrip() for ln in lines)
+    if kind == "no-element-columns":
+        return "\n".join(ln[:66].rstrip() if ln.startswith(("ATOM", "HETATM")) else ln.rstrip() for ln in lines)
+    if kind == "crlf":
+        return "\r\n".join(lines)
+    if kind == "extra-records":
+        out = ["HEADER    RNA                                     01-JAN-00   VERI", "REMARK   2 RESOLUTION.    1.90 ANGSTROMS.",
+               "CRYST1   50.000   50.000   50.000  90.00  90.00  90.00 P 1           1"]
+        first = True
+        for ln in lines:
+            out.append(ln)
+            if ln.startswith("ATOM") and first:
+                out.append("ANISOU" + ln[6:28] + "    1234   2345   3456    111    222    333" + ln[70:80])
+                first = False
+        while out and not out[-1].strip():
+            out.pop()
+        if out and out[-1].strip() == "END":
+            out.pop()
+        out += ["CONECT    1    2", "MASTER        0    0    0    0    0    0    0    0   12    0    0    0", "END"]
+        return "\n".join(out) + "\n"
+    raise KeyError(kind)
+
+
+def cif_variant(text, kind):
+    """The same atom_site loop in another legal presentation of the mmCIF text."""
+    blocks = cif.parse(text)
+    name, cats = blocks[0]
+    items, rows = cats["atom_site"]
+    if kind == "columns-reversed":
+        cats["atom_site"] = (items[::-1], [tuple(r[::-1]) for r in rows])
+        return cif.emit([(name, cats)], {"atom_site": "loop"})
+    if kind == "extra-items":
+        cats["atom_site"] = (["verif_note"] + items + ["pdbx_verif_flag"], [(("v", "n%d" % k),) + tuple(r) + (("n", "?"),) for k, r in enumerate(rows)])
+        return cif.emit([(name, cats)], {"atom_site": "loop"})
+    if kind == "all-quoted":
+        out = []
+        for ln in text.split("\n"):
+            if ln.startswith(("ATOM", "HETATM")):
+                ln = " ".join(tok if tok in ("?", ".") or "'" in tok or '"' in tok else "'%s'" % tok for tok in ln.split())
+            out.append(ln)
+        return "\n".join(out)
+    if kind == "tabs-and-comments":
+        out = []
+        for ln in text.split("\n"):
+            if ln.startswith(("ATOM", "HETATM")):
+                ln = "\t".join(ln.split()) + "   "
+            elif ln.startswith("loop_"):
+                ln = "# atom records follow\nloop_"
+            out.append(ln)
+        return "\n".join(out)
+    raise KeyError(kind)
+
+
 def emit_cif(table, null_icode="?", null_alt=".", null_occ="?", label_differs=False, extra_categories=None, label_seq_null=None):
     """label_differs: label_asym_id / label_seq_id carry other values than the auth ids (as in real files)."""
     rows = []
